@@ -50,7 +50,13 @@ impl EventGen for SvgElement {
                         return res;
                     }
                 }
-                OtherElement(self.clone()).generate_events(context)
+                if self.name == "svg" && self.has_attr("xmlns") {
+                    // real SVG is passed through as is, also when it is an empty element
+                    // (Container does the same for the start / end tag form)
+                    Ok((self.all_events(context).into(), None))
+                } else {
+                    OtherElement(self.clone()).generate_events(context)
+                }
             }
         };
         // Ideally would have a single 'if bbox, set prev_element' here,
